@@ -1,4 +1,5 @@
 """C13 - non-Gaussian likelihoods: exact Gauss-Hermite rule, analytic Bernoulli marginal, log_normal_cdf.
+Part "bigrules" carries the RULE SIZE (48 .. 128 nodes, constructor / setting / likelihood, float64 / float32) with the top degrees 2n-2, 2n-1 against exact integer moments.
 Spec: Quadrature.tla (exact Gaussian moments, code-shaped rule for num_locs <= 3, shape/index model of forward, likelihood x
 method x setting lattice, repeated differentiation of log_normal_cdf through one graph - part "rediff", machine of BackwardOps.tla).  Part "params" carries the constraint class of every likelihood parameter as a dimension (default / GreaterThan / Interval / exp transform; constructor or
 register_constraint), part "condf" the conditional log-density and its gradient over the whole range of the function values (|f| = 1e-6 .. 1e3) for Bernoulli, Laplace, Student-t, Beta, Softmax.
@@ -30,6 +31,9 @@ CON_DECADES = (-6, -1, 1)                    # exponents of the cases with a non
 CON_HOWS = ("ctor", "register")
 F_DECADES = tuple(range(-6, 4))              # part condf: |f| = 10^e up to 1e3
 COND_FLOOR = 36                              # torch's Categorical(probs=..) floors log-probabilities at log(eps) = -36.04
+BIG_LOCS = (48, 61, 64, 80, 100, 128)        # part bigrules: rule sizes (no weight underflows float32 up to 60 nodes)
+BIG_HOWS = ("ctor", "setting", "likelihood")
+BIG_DTYPES = ("float64", "float32")
 
 
 def tla(v):
@@ -50,7 +54,7 @@ BW_MAX = 3
 BW_UP = {"quick": ["ones", "randA"], "thorough": ["ones", "randA", "randB", "unit"]}
 
 
-def write_mc(workdir, part, instances=(), tier="quick", impure=(), name=None, floor=None, inline=(), cfloor=0):
+def write_mc(workdir, part, instances=(), tier="quick", impure=(), name=None, floor=None, inline=(), cfloor=0, kept=None):
     os.makedirs(workdir, exist_ok=True)
     mod = "MC_Quadrature_" + (name or part)
     with open(os.path.join(workdir, mod + ".tla"), "w") as f:
@@ -63,14 +67,17 @@ def write_mc(workdir, part, instances=(), tier="quick", impure=(), name=None, fl
         f.write("DecDef == (%d)..(%d)\nFloorDef == %d\n" % (DECADES[0], DECADES[-1], -99 if floor is None else floor))
         f.write("ConClsDef == {%s}\nConDecDef == {%s}\nConHowDef == {%s}\nInlineDef == {%s}\nFDecDef == (%d)..(%d)\n" % (
             ", ".join(tla(k) for k in CON_CLASSES), ", ".join(str(e) for e in CON_DECADES), ", ".join(tla(h) for h in CON_HOWS), ", ".join(tla(list(i)) for i in inline), F_DECADES[0], F_DECADES[-1]))
+        f.write("BigLocsDef == {%s}\nBigHowsDef == {%s}\nBigDtypesDef == {%s}\nBigKeptDef == %s\n" % (
+            ", ".join(str(n) for n in BIG_LOCS), ", ".join(tla(h) for h in BIG_HOWS), ", ".join(tla(d) for d in BIG_DTYPES),
+            " @@ ".join("(%d :> %d)" % (n, (kept or {}).get(n, n)) for n in BIG_LOCS)))
         f.write("BWUpDef == {%s}\nBWImpureDef == {%s}\n====\n" % (", ".join(tla(u) for u in BW_UP[tier]), ", ".join(tla(list(i)) for i in impure)))
     cfg = os.path.join(workdir, mod + ".cfg")
-    inv = {"params": ["ParamsOK", "FuncOK", "ParamsNoFloorOK", "ParamsThroughConstraintOK"], "condf": ["CondFOK", "CondNoFloorOK"], "moments": "MomentsOK", "rule": "RuleOK", "shapes": "ShapesOK", "lattice": "LatticeOK", "rediff": "RediffDerivOK" if impure else "RediffOK"}[part]
+    inv = {"params": ["ParamsOK", "FuncOK", "ParamsNoFloorOK", "ParamsThroughConstraintOK"], "condf": ["CondFOK", "CondNoFloorOK"], "moments": "MomentsOK", "rule": "RuleOK", "shapes": "ShapesOK", "lattice": "LatticeOK", "bigrules": ["BigNodesOK"] if kept else ["BigRulesOK", "BigNodesOK", "BigCountOK"], "rediff": "RediffDerivOK" if impure else "RediffOK"}[part]
     tlc.write_cfg(cfg, spec="Spec", invariants=inv if isinstance(inv, list) else [inv],
                   constants={"Part": part, "BWMaxBwd": BW_MAX, "BWUpstreams": "<- BWUpDef", "BWImpure": "<- BWImpureDef", "Instances": "<- InstDef", "MaxDeg": 12, "RuleLattice": "<- LatDef", "ShapeDims": "<- DimsDef",
                              "ShapeRank": 2, "ShapeLocs": "<- ShLocsDef", "LocsSettings": "<- LocSetDef", "BatchShapes": "<- BatchDef",
                              "Decades": "<- DecDef", "MinSpread": MIN_SPREAD[tier], "ParamK": 2, "ParamFloor": "<- FloorDef", "ConClasses": "<- ConClsDef", "ConDecades": "<- ConDecDef", "ConHows": "<- ConHowDef", "ParamInline": "<- InlineDef",
-                             "FDecades": "<- FDecDef", "CondFloor": cfloor, "DataN": rp.DATA_N, "NumSamples": rp.NUM_SAMPLES, "DefaultLocs": 20})
+                             "FDecades": "<- FDecDef", "CondFloor": cfloor, "BigLocs": "<- BigLocsDef", "BigHows": "<- BigHowsDef", "BigDtypes": "<- BigDtypesDef", "BigKept": "<- BigKeptDef", "DataN": rp.DATA_N, "NumSamples": rp.NUM_SAMPLES, "DefaultLocs": 20})
     return os.path.join(workdir, mod + ".tla"), cfg
 
 
@@ -105,10 +112,10 @@ def run(ck):
     insts = [dict(mn=a, sn=b, dd=d, coef=c) for (a, b, d) in LATTICE for c in coefs]
     jobs = []
     tw = max(1, min(4, core.NPROC // 3))
-    PARTS = ("moments", "rule", "shapes", "lattice", "rediff", "params", "condf")
+    PARTS = ("moments", "rule", "shapes", "lattice", "rediff", "params", "condf", "bigrules")
     for part in PARTS:
         mod, cfg = write_mc(wd, part, insts if part == "moments" else (), tier=ck.tier)
-        jobs.append(((mod, cfg), dict(name=PID + "/" + part, dump=True, check=False, workers=tw, timeout=900, coverage=(part not in ("rediff", "params", "condf")))))
+        jobs.append(((mod, cfg), dict(name=PID + "/" + part, dump=True, check=False, workers=tw, timeout=900, coverage=(part not in ("rediff", "params", "condf", "bigrules")))))
     # vacuity guard of the histories: a backward that overwrites ctx.denominator must be found, and only by a history with two passes
     mod, cfg = write_mc(wd, "rediff", (), tier=ck.tier, impure=[("lncdf", "denominator")], name="rediff_impure")
     jobs.append(((mod, cfg), dict(name=PID + "/rediff_impure", dump=False, check=False, workers=1, timeout=600, coverage=False)))
@@ -121,7 +128,20 @@ def run(ck):
     # vacuity guard of the function-value decades: a conditional that floors log-probabilities 36 below the most likely class (the seeded C13-r4s2) must be told apart
     mod, cfg = write_mc(wd, "condf", (), tier=ck.tier, name="condf_floor", cfloor=COND_FLOOR)
     jobs.append(((mod, cfg), dict(name=PID + "/condf_floor", dump=False, check=False, workers=1, timeout=600, coverage=False)))
+    # vacuity guard of the rule sizes: a rule that drops the nodes whose weight is no float32 number (the seeded C13-r5s2) must be told apart, and only by a top-degree case of a rule with > 60 nodes
+    kept = rp.float32_kept(BIG_LOCS)
+    mod, cfg = write_mc(wd, "bigrules", (), tier=ck.tier, name="bigrules_drop", kept=kept)
+    jobs.append(((mod, cfg), dict(name=PID + "/bigrules_drop", dump=False, check=False, workers=1, timeout=600, coverage=False)))
     res_all = tlc.run_many(jobs, parallel=3)
+    r_drop = res_all.pop()
+    ck.add_tlc(r_drop, "Quadrature bigrules with a rule that drops the nodes whose weight underflows float32 (must violate)")
+    mm = re.search(r"BigNodesOK is violated by the initial state:.*?c = \[(.*?)\]\n", r_drop.stdout, re.S)
+    cex = mm.group(1) if mm else ""
+    cn = re.search(r"\bn \|-> (\d+)", cex)
+    cd = re.search(r'deg \|-> "([^"]+)"', cex)
+    if not r_drop.violation or r_drop.violation["name"] != "BigNodesOK" or not cn or not cd or int(cn.group(1)) <= 60 or not cd.group(1).startswith("top") or not any(k < n for n, k in kept.items()):
+        ck.vacuous("the rule sizes do not distinguish a rule that drops the nodes with float32-underflowing weights (violation %r, counterexample %r, kept %s)" % (
+            (r_drop.violation or {}).get("name"), cex[:200], kept))
     r_cfl = res_all.pop()
     ck.add_tlc(r_cfl, "Quadrature condf with a conditional that floors log-probabilities at -36 (must violate)")
     mm = re.search(r"CondNoFloorOK is violated by the initial state:.*?em \|-> (-?\d+)", r_cfl.stdout, re.S)
@@ -250,6 +270,12 @@ def run(ck):
     if c_liks != {("Bernoulli", False), ("Laplace", False), ("StudentT", False), ("Beta", False), ("Softmax", False), ("Softmax", True)} or not c_wrong or c_ems != set(F_DECADES):
         ck.vacuous("Quadrature condf run: likelihoods %s, %d confidently misclassified Softmax cases, decades %s" % (sorted(c_liks), c_wrong, sorted(c_ems)))
     items += c_items
+    # ---- (7) the rule size: every case of part "bigrules" ---------------------------------------------------------------------------------
+    bstates = rs["bigrules"].states()
+    b_items = rp.big_items(bstates)
+    if len(bstates) != len(BIG_LOCS) * len(BIG_HOWS) * len(BIG_DTYPES) * 4 * 3 * 4 or len(b_items) != len(BIG_LOCS) * len(BIG_HOWS) * len(BIG_DTYPES) or max(BIG_LOCS) < 100:
+        ck.vacuous("Quadrature bigrules run produced %d cases in %d items" % (len(bstates), len(b_items)))
+    items += b_items
     # ---- (b), (c), (d): reference comparisons -----------------------------------------------------------------------------------
     items += rp.cond_items(ck.seed, thorough)
     items += rp.bern_items(ck.seed, thorough)
@@ -269,7 +295,7 @@ def run(ck):
     ck.section("tlc", moment_instances=len(exact), rule_states=len(rule_states), shape_cases=len(shape_cases), shape_cases_in_domain=n_ok,
                lattice_cells=len(cells), lattice_cells_decided=sum(1 for c in cells if c["decided"]), param_cases=len(pstates) - len(DECADES) ** 2 * 2, param_cases_mixed_batch=mixed,
                param_decades="%d..%d" % (lo, hi), param_items_non_default_constraint=n_con, constraint_classes=len(CON_CLASSES), condf_cases=len(cstates),
-               condf_softmax_cases_confidently_wrong=c_wrong // len(rp.CONDF_LAYOUTS), function_decade_cases=len(DECADES) ** 2 * 2, rediff_maximal_histories=len(hists),
+               condf_softmax_cases_confidently_wrong=c_wrong // len(rp.CONDF_LAYOUTS), function_decade_cases=len(DECADES) ** 2 * 2, rediff_maximal_histories=len(hists), bigrule_cases=len(bstates), bigrule_sizes=len(BIG_LOCS), bigrule_max_nodes=max(BIG_LOCS),
                rediff_histories_log_normal_cdf=routes["log_normal_cdf"], rediff_histories_bernoulli_elp=routes["bernoulli_elp"], rediff_passes_per_graph_max=BW_MAX)
     ck.rule = ("cases = (a) TLC's exact integral of every (m, s, integer polynomial) instance x every num_locs whose degree bound covers it x how the "
                "rule object is built (default dtype float64, through the setting, inside a likelihood, float32 nodes cast to double) x batch layout, plus "
@@ -284,7 +310,9 @@ def run(ck):
                "value = that constraint's lower bound + 10^e, the returned distribution's parameters against the spec's value AND against what the public property reports, integrals against a fresh "
                "default-constrained likelihood carrying the same values; (g) every case of part condf: likelihood (Bernoulli, Laplace, Student-t, Beta, Softmax with / without mixing weights) x |f| = 10^e, "
                "e = -6..3 x sign / direction x observation class, all magnitudes in one tensor (flat and 2 x n): log_prob of the returned distribution and its gradient w.r.t. f against mpmath at 1e-9, "
-               "Softmax log-odds and the Laplace linear part / slope against the spec's exact rationals; plus the Bernoulli marginal / expected_log_prob over function means +-10^e and variances 10^e; distinct = distinct abstract case; non-trivial = polynomial "
+               "Softmax log-odds and the Laplace linear part / slope against the spec's exact rationals; (h) every case of part bigrules: num_locs in (48, 61, 64, 80, 100, 128) x (constructor argument, settings.num_gauss_hermite_locs, a likelihood built under the setting) x "
+               "default dtype at construction (float64, float32 then .double()) x mean = (0, +-1/2, 8) sd x sd in (1/4, 1, 3/2) x degree (2n-2, 2n-1, n, n+1): the real rule on the monomial against the exact moment in Python integers "
+               "(cases whose integrand leaves the float64 range at a node are counted, not decided), the node count, the sign and the sum of the weights; plus the Bernoulli marginal / expected_log_prob over function means +-10^e and variances 10^e; distinct = distinct abstract case; non-trivial = polynomial "
                "degree >= 1 / a batched or broadcast shape / a non-default setting or batch / every reference comparison")
     ck.explanation = ("TLC is exhaustive over (i) the rational lattice of %d (m, s) points x %d integer polynomials (exact moments, recurrence = closed form = "
                       "Stein recurrence, central moments), (ii) the code-shaped rule for num_locs <= 3 on that lattice (exact to degree 2n-1, deficit "
@@ -295,11 +323,12 @@ def run(ck):
                       "mixed-magnitude batch layout x function shape; the documented reading of the conditional's parameters is injective on the lattice (no clamp inside the valid range) "
                       "and every result element reads exactly one member; the constraint class of every parameter is a dimension of that lattice (the conditional reads each parameter through the registered constraint: "
                       "a forward modelled as inlining the default transform is refuted by a non-default case), (vii) part condf: the function-value lattice |f| = 1e-6..1e3 of every conditional the library builds, with the exact "
-                      "Softmax log-odds (logit differences, unbounded: a conditional floored 36 below the most likely class is refuted) and the exact Laplace slope.  "
+                      "Softmax log-odds (logit differences, unbounded: a conditional floored 36 below the most likely class is refuted) and the exact Laplace slope, (viii) part bigrules: the rule size up to %d nodes x how it is given x dtype x "
+                      "mean / sd cell x degree class; every case lies inside the quantifier and a modelled rule that keeps only the nodes whose weight is a float32 number is refuted by a top-degree case of a rule with more than 60 nodes.  "
                       "Every TLC case is replayed into the real code against the spec's exact value.  "
                       "Everything else - truncation error on non-polynomial integrands, the accuracy of log_normal_cdf, conditional parameters, the probit "
                       "identity at real (m, v) - is a float64-vs-mpmath reference comparison on a fixed grid plus seeded samples; TLA+ only names the "
-                      "integrand there.  Hence level 'other'." % (len(LATTICE), len(coefs), len(shape_cases), len(cells)))
+                      "integrand there.  Hence level 'other'." % (len(LATTICE), len(coefs), len(shape_cases), len(cells), max(BIG_LOCS)))
     ck.assumptions = rp.ASSUMPTIONS
     ck.exhaustive = False
 
